@@ -61,12 +61,12 @@ _R = {
             PURE + "Proved on ReactivePure for a WHOLE write and any history of writes (C01Write.v): the depth-first pass, started from a freshly written signal of a quiescent state with its fuel, neither runs out of fuel nor reports a cycle, changes only marks and establishes the loop invariant Inv (C01_dfs_establishes_inv); a late-read-free write (or batch flush) leads from a quiescent state (marks reset, nothing dirty, symmetric edges, every computation consistent with the current values, acyclic) to a quiescent state (C01_write_consistent, C01_batch_consistent), hence so does every sequence of writes (C01_writes_consistent); quiescent states are closed under node creation; a tracked-only memo of a quiescent state holds exactly what its function yields from the current values. The late-read hypothesis LRF cannot be dropped: C01_late_read_refuted / C01_write_consistent_without_lrf_refuted are known finding F1. The pure depth-first pass is compared with Interp's on every bridge evaluation (same schedule, same result)."),
     "C02": ("proof", "5.C02", "per propagation: each computation runs at most once, reads only settled derived values, and re-runs only if one of its previous subscriptions fired.",
             PURE + "Proved for a whole write from a quiescent state (ReactivePure/Glitch.v): the schedule has no duplicates, one trace entry per scheduled node, only nodes reachable from the written signal (C02_write_schedule: at most one run per write); when a node runs, every node it reads with tracking, and every dependency of such a node, is settled -- no longer scheduled, not dirty, consistent, holding its final value (C02_write_reads_settled); a node runs IF AND ONLY IF one of the dependencies it had before the write is the written signal or a computation that ran earlier in this propagation and changed (C02_write_runs_only_if_fired, C02_write_runs_if_fired; selectors that compare equal do not fire). All under the late-read hypothesis (F1). Untracked reads are outside the guarantee, in model and code alike (C02_untracked_read_sees_stale_value = known finding F19)."),
-    "C03": ("proof", "5.C03", "after each run the subscriptions equal the specification-level tracked reads of that run (untracked forms never subscribe) and every subscriber of a fired node re-runs, also for the writes a computation makes while another write -- or the flush of a batch -- is being propagated; every third program with an untrack block or a batch is also run with those entered while another root is the current one and every write mirrored into a signal of that root, whose effect tracks the scenario's signals.",
+    "C03": ("proof", "5.C03", "after each run the subscriptions equal the specification-level tracked reads of that run (untracked forms never subscribe) and every subscriber of a fired node re-runs, also for the writes a computation makes while another write -- or the flush of a batch -- is being propagated; every third program with an untrack block or a batch is also run with those entered while another root is the current one and every write mirrored into a signal of that root, whose effect tracks the scenario's signals; both ends of every edge are judged (a computation's dependency entries = its tracked reads; a node's subscriber entries = the dependency entries naming it, per read), with a family that reads a signal several times and then not at all.",
             PURE + "Proved: C03_run_node_spec (after a run the dependency list is exactly the tracked reads of that evaluation, old links removed, new links added, nobody else's change), untracked reads never enter it, symmetric edges through a whole propagation. The untracked FORMS are proved on Reactive/Interp.v itself (Reactive/TrackerFacts.v): untrack(..) and component bodies, disposal and every cleanup callback give back the tracker they found, on(deps, ..) leaves exactly deps appended, get_untracked never touches the tracker and a tracked read appends exactly its node (C03_untrack_never_subscribes, _component_, _cleanups_, _rerun_cleanups_, C03_on_tracks_deps_only, C03_get_untracked_never_subscribes, C03_get_subscribes)."),
     "C16": ("proof", "5.C16", "every use_context returns the nearest enclosing provision according to a reference walk over the program's scope tree, duplicates panic; a second root with sentinel provisions is alive beside the scenario's root and top-level run_in statements are issued from inside it.",
             " Proved on Reactive/Interp.v itself: C16_use_context_nearest (whenever the walk answers it answers with the nearest provision on the ownership chain and changes nothing), functionality of 'nearest', totality when parents are older than children, shadowing, duplicate provision panics, a fresh provision is visible, dispose_children (hence every re-run) clears what the node provided."),
     "C04": ("proof", "5.C04", "cleanups run at most once and exactly once by root disposal, live nodes = nodes reachable through ownership, no dead subscribers, nothing alive after root disposal.",
-            " Proved on Reactive/Interp.v itself (Reactive/Own.v, DisposeFacts.v, Isolation.v; whole-block inductions over the 12 mutually recursive functions, axiom-free): after EVERY program that completes the graph is well formed, ownership is a tree (children lists and owner pointers mirror each other, every live node reaches the root through live owners) and per cleanup label emitted + still registered = registered (C04_program_final_state); a disposal leaves the scope dead, every survivor outside its subtree and rooted, no edge mentioning it (C04_dispose_leak_free, _no_edges, _not_alive), with the cleanup conservation law as an equality (C04_dispose_cleanups_exact); a node being disposed is never run again (C04_disposed_node_stays_clean). The proof attempts found the defects F17 (pointed out by a seed author), F20 and F21, all repaired; mapped-list item scopes are C07's. Every scenario ends with an observed RootHandle::dispose() (model: disposal of the root scope; must agree event by event), followed by the creation of new nodes in the re-initialised root with a count of the old handles that report alive (must be 0): this found F27 and F28, repaired. A memo / effect destroyed by a cleanup of its own previous run does not run again (F32, found by an auditor's fuzzer: repaired in code and model, theorems C04_disposed_by_cleanup_not_rerun, C04_rerun_iff_survived; the oracle checks it inside every statement from the logged positions of disposals). NODE IDENTITIES: Interp.v takes node ids from a fresh supply, the code takes them from a slot map that RE-USES slots; Reactive/Arena.v models that slot map literally (versions with their u32 wrap, free list, drain, the old and the new Root::reinit) and Reactive/ArenaFacts.v / Props/C04a.v prove, for every history of insertions / removals / drains with fewer than 2^31-1 insertions, that a removed or drained key is never alive again, that every key handed out is new, and that liveness of handed-out keys is exactly membership in the abstract set of live keys (the refinement that justifies the fresh supply), with the refutation for the old reinit (a fresh map resurrects keys: F28). harness/arena-driver drives the real create_signal / create_child_scope / dispose / RootHandle::dispose and Arena.v must predict the raw key and liveness of EVERY handle after every step; Reactive/ArenaDriver.v lifts the theorems to that compared function itself (every driver state is a history state: no raw key printed for two handles, a handle seen dead stays dead after any continuation, a re-initialisation kills every earlier handle), so the two clauses of the run's oracle are theorems about the model."),
+            " Proved on Reactive/Interp.v itself (Reactive/Own.v, DisposeFacts.v, Isolation.v; whole-block inductions over the 12 mutually recursive functions, axiom-free): after EVERY program that completes the graph is well formed, ownership is a tree (children lists and owner pointers mirror each other, every live node reaches the root through live owners) and per cleanup label emitted + still registered = registered (C04_program_final_state); a disposal leaves the scope dead, every survivor outside its subtree and rooted, no edge mentioning it (C04_dispose_leak_free, _no_edges, _not_alive), with the cleanup conservation law as an equality (C04_dispose_cleanups_exact); a node being disposed is never run again (C04_disposed_node_stays_clean). The proof attempts found the defects F17 (pointed out by a seed author), F20 and F21, all repaired; mapped-list item scopes are C07's. Every scenario ends with an observed RootHandle::dispose() (model: disposal of the root scope; must agree event by event), followed by the creation of new nodes in the re-initialised root with a count of the old handles that report alive (must be 0): this found F27 and F28, repaired. A memo / effect destroyed by a cleanup of its own previous run does not run again (F32, found by an auditor's fuzzer: repaired in code and model, theorems C04_disposed_by_cleanup_not_rerun, C04_rerun_iff_survived; the oracle checks it inside every statement from the logged positions of disposals). NODE IDENTITIES: Interp.v takes node ids from a fresh supply, the code takes them from a slot map that RE-USES slots; Reactive/Arena.v models that slot map literally (versions with their u32 wrap, free list, drain, the old and the new Root::reinit) and Reactive/ArenaFacts.v / Props/C04a.v prove, for every history of insertions / removals / drains with fewer than 2^31-1 insertions, that a removed or drained key is never alive again, that every key handed out is new, and that liveness of handed-out keys is exactly membership in the abstract set of live keys (the refinement that justifies the fresh supply), with the refutation for the old reinit (a fresh map resurrects keys: F28). harness/arena-driver drives the real create_signal / create_child_scope / dispose / RootHandle::dispose and Arena.v must predict the raw key and liveness of EVERY handle after every step; Reactive/ArenaDriver.v lifts the theorems to that compared function itself (every driver state is a history state: no raw key printed for two handles, a handle seen dead stays dead after any continuation, a re-initialisation kills every earlier handle), so the two clauses of the run's oracle are theorems about the model, down to the printed lines (C04a_lines_keys_distinct, C04a_lines_dead_stays_dead); Reactive/ArenaSpec.v adds an arena-free specification of liveness (created and neither disposed -- itself, with its owner or its owner's owner -- nor swept by a re-initialisation since) and proves that the model's liveness IS that specification (C04a_alive_iff_spec, C04a_dispose_exact)."),
     "C10": ("proof", "5.C10", "nothing runs and derived values stay frozen between the markers of an outermost batch; the flush runs each computation at most once and leaves a consistent state; every fourth program with a batch is also run with the batch started while another root is the current one and every write mirrored into a signal of that root (writes to the two roots interleaved inside the batch).",
             " Proved on Reactive/Interp.v (Reactive/BatchFacts.v): inside a batch a write only queues (C10_batch_defers); for EVERY body -- creating effects, disposing scopes, nested batches at any depth -- execution under the batch flag coincides with an interpreter from which propagate / loop / run_node_update have been removed, and the flag survives the body (C10_batched_exec, C10_batching_kept); a nested batch is a pair of brackets, the outermost one is body-without-propagation followed by ONE propagation from the queue (C10_inner_batch, C10_outermost_batch); no run event between the brackets for bodies that create and dispose nothing (C10_batch_quiet_log). The flush: on ReactivePure a batch of writes from a quiescent state leads to a quiescent state (C10_flush_consistent, under the late-read hypothesis = F1). 'Exactly once per surviving affected computation' is judged by the oracle and, on ReactivePure, by the NoDup schedule."),
     "C11": ("proof", "5.C11", "no runtime panic under a disposal injected at every statement position of every callback/cleanup/batch body, and no corruption of later updates.",
@@ -149,7 +149,7 @@ CHECKS["C13"] = dict(
     note=ATB, design="5.C13")
 CHECKS["C14"] = dict(
     technique="Coq proof (absorbing task status, panic-freedom and counter invariant, by induction over all schedules) on the transition system + fault enumeration (a disposal at every step for every scope) against the real executor + oracle",
-    text=("Same transition system with cancellation: disposing a scope aborts the tasks spawned under it; the executor later drops them and their guards. Proved for every state, schedule and "
+    text=("Schedules may start with a disposal BEFORE the executor's first step (oracle only: the transition system has no state between spawn and first poll): none of the scope's tasks may ever be polled. Same transition system with cancellation: disposing a scope aborts the tasks spawned under it; the executor later drops them and their guards. Proved for every state, schedule and "
           "disposal point: a pending task under the disposed scope becomes Cancelled and no later step of ANY continuation polls or completes it (C14_no_poll_after_dispose, "
           "C14_never_polled_again); no step, task drop or final root disposal panics (C14_no_panic, for the fixed guard; Example pinned_panics shows the panic of the code as pinned); after a "
           "disposal the counter of every surviving boundary equals the number of tasks still pending under it (C14_counters_released, C14_counter_invariant_reachable); after the disposal of the root nothing is loading, whatever was pending (C14_nothing_loading_after_root_disposal). Every run inserts a disposal "
